@@ -84,6 +84,7 @@ def build_all(verbose=False):
             if rc != 0:
                 info["gen_ok"] = False; info["gen_log"] = out
             else:
+                os.makedirs(os.path.join(COQ, "gen"), exist_ok=True)      # (untracked: absent in a fresh checkout)
                 tmp = os.path.join(COQ, "gen", "Generated.v.new")
                 rc, out = sh([gen_bin, "-repo", "/repo", "-out", tmp], cwd=GEN_DIR, env=GOENV)
                 if rc != 0:
